@@ -77,6 +77,38 @@ static int64_t zigzag_decode64(uint64_t n) {
     return (int64_t)((n >> 1) ^ (~(n & 1) + 1));
 }
 
+/* Bit-packed (LSB first) access for miniblock widths above 32 bits. */
+static uint64_t read_packed64(const uint8_t* data, size_t bit_offset, int bit_width) {
+    uint64_t value = 0;
+    size_t byte = bit_offset >> 3;
+    int shift = (int)(bit_offset & 7);
+    int got = 0;
+
+    while (got < bit_width) {
+        int take = 8 - shift;
+        if (take > bit_width - got) take = bit_width - got;
+        uint64_t chunk = ((uint64_t)data[byte++] >> shift) & ((1ULL << take) - 1);
+        value |= chunk << got;
+        got += take;
+        shift = 0;
+    }
+    return value;
+}
+
+static void write_packed64(uint8_t* data, size_t bit_offset, int bit_width, uint64_t value) {
+    size_t byte = bit_offset >> 3;
+    int shift = (int)(bit_offset & 7);
+    int put = 0;
+
+    while (put < bit_width) {
+        int take = 8 - shift;
+        if (take > bit_width - put) take = bit_width - put;
+        data[byte++] |= (uint8_t)(((value >> put) & ((1ULL << take) - 1)) << shift);
+        put += take;
+        shift = 0;
+    }
+}
+
 /* ============================================================================
  * Delta Decoder Implementation
  * ============================================================================
@@ -189,22 +221,23 @@ static carquet_status_t delta_decoder_read_mini_block(delta_decoder_t* dec) {
         }
 
         dec->pos += packed_size;
-    } else {
-        /* Unpack 64-bit values (stored as little-endian bytes) */
-        int bytes_per_value = (bit_width + 7) / 8;
-        size_t packed_size = mini_block_size * bytes_per_value;
+    } else if (bit_width <= 64) {
+        /* Unpack bit-packed deltas wider than 32 bits */
+        size_t packed_size = ((size_t)mini_block_size * (size_t)bit_width + 7) / 8;
         if (dec->pos + packed_size > dec->size) {
             return CARQUET_ERROR_DECODE;
         }
 
         for (int i = 0; i < mini_block_size; i++) {
-            uint64_t val = 0;
-            for (int b = 0; b < bytes_per_value; b++) {
-                val |= (uint64_t)dec->data[dec->pos++] << (b * 8);
-            }
+            uint64_t val = read_packed64(dec->data + dec->pos,
+                                         (size_t)i * (size_t)bit_width, bit_width);
             /* Use unsigned addition to avoid overflow UB */
             dec->mini_block_values[i] = (int64_t)((uint64_t)dec->min_delta + val);
         }
+
+        dec->pos += packed_size;
+    } else {
+        return CARQUET_ERROR_DECODE;
     }
 
     dec->current_mini_block++;
@@ -389,13 +422,8 @@ static carquet_status_t delta_encoder_flush_block(delta_encoder_t* enc) {
         bit_widths[mb] = (uint8_t)bit_width_required(max_val);
         if (bit_widths[mb] > 0) {
             /* Calculate bytes needed for this mini-block */
-            if (bit_widths[mb] <= 32) {
-                /* Bitpacked: mini_block_size values * bit_width / 8 */
-                packed_bytes_needed += (size_t)mini_block_size * bit_widths[mb] / 8;
-            } else {
-                /* Byte-by-byte: mini_block_size values * bytes_per_value */
-                packed_bytes_needed += (size_t)mini_block_size * ((bit_widths[mb] + 7) / 8);
-            }
+            /* Bitpacked: mini_block_size values * bit_width / 8 */
+            packed_bytes_needed += (size_t)mini_block_size * bit_widths[mb] / 8;
         }
     }
 
@@ -434,21 +462,16 @@ static carquet_status_t delta_encoder_flush_block(delta_encoder_t* enc) {
             enc->pos += carquet_bitpack_32(to_pack, mini_block_size,
                                             bit_widths[mb], enc->data + enc->pos);
         } else {
-            /* For bit widths > 32, pack directly as bytes (little-endian) */
-            int bytes_per_value = (bit_widths[mb] + 7) / 8;
+            /* Bit widths > 32 are bit-packed like every other width */
+            size_t packed_size = (size_t)mini_block_size * bit_widths[mb] / 8;
+            memset(enc->data + enc->pos, 0, packed_size);  /* also pads with zeros */
             for (int i = start; i < end; i++) {
                 /* Use unsigned subtraction to avoid overflow UB */
                 uint64_t adjusted = (uint64_t)enc->deltas[i] - (uint64_t)min_delta;
-                for (int b = 0; b < bytes_per_value; b++) {
-                    enc->data[enc->pos++] = (uint8_t)(adjusted >> (b * 8));
-                }
+                write_packed64(enc->data + enc->pos,
+                               (size_t)(i - start) * bit_widths[mb], bit_widths[mb], adjusted);
             }
-            /* Pad with zeros */
-            for (int i = end - start; i < mini_block_size; i++) {
-                for (int b = 0; b < bytes_per_value; b++) {
-                    enc->data[enc->pos++] = 0;
-                }
-            }
+            enc->pos += packed_size;
         }
     }
 
